@@ -532,7 +532,9 @@ func C12(c *core.Ctx) {
 			c.Sample(map[string]interface{}{"case": p.desc, "impl": short(decodeEvents(strings.SplitN(p.impl, " | ", 2)[0][2:])), "model": short(decodeEvents(modelTrace))})
 		}
 		if p.impl != want {
-			if strings.Contains(fmt.Sprint(p.input["failing_event"]), "choose tgt:") && c.IsKnown("target-choose-error-swallowed", p.desc) {
+			// the known finding is the *swallowed* error: the call goes on and returns nil.  A run in which the error of a
+			// target Choose does come back is held to the model like every other one
+			if strings.Contains(fmt.Sprint(p.input["failing_event"]), "choose tgt:") && strings.HasPrefix(p.impl, "1 ") && c.IsKnown("target-choose-error-swallowed", p.desc) {
 				continue
 			}
 			implParts := strings.SplitN(p.impl, " | ", 2)
